@@ -6,7 +6,7 @@ Open Scope Z_scope.
 Lemma insert_key_perm {A} (key : A -> Z) x l : Permutation (insert_key key x l) (x :: l).
 Proof.
   induction l as [|y l IH]; cbn [insert_key]; [apply Permutation_refl|].
-  destruct (key x <? key y); [apply Permutation_refl|].
+  destruct (key x <=? key y); [apply Permutation_refl|].
   eapply perm_trans; [apply perm_skip, IH | apply perm_swap].
 Qed.
 
